@@ -66,6 +66,25 @@ def run(chk):
         for n in ast.walk(fn.node):
             if isinstance(n, ast.Attribute) and n.attr == "_compressobj" and isinstance(n.ctx, ast.Load) and fn.name != "_get_compressor":
                 chk.violation("C11.lock", n, "self._compressobj", f"read in {fn.qualname}", "the shared deflate context is used without going through the locked accessor")
+    # ---- C11.takeover: with context takeover every compressed message goes through the one shared context -------------------------------
+    # The peer inflates all messages with a single window. A message deflated by a throw-away context is absent from the sender's shared
+    # window but present in the receiver's, so later back-references of the shared context resolve to the wrong bytes.
+    for c in prog.calls_in(gc.node):
+        if not (isinstance(c.func, ast.Name) and c.func.id == "ZLibCompressor"):
+            continue
+        st = K.stmt_of(c)
+        shared = isinstance(st, ast.Assign) and norm.raw(st.targets[0]) == "self._compressobj"
+        if shared:
+            chk.ok("C11.takeover", c, "the shared deflate context is created once and kept")
+            continue
+        cl = PC.pc(c)
+        safe = any(all((l.text == "self.notakeover" and l.pos) or (l.text in ("self.compress", "self._compressobj") and not l.pos) for l in clause) for clause in cl)
+        if safe:
+            chk.ok("C11.takeover", c, "a per-message deflate context is used only without context takeover (or when no shared context exists)")
+        else:
+            chk.violation("C11.takeover", c, K.short(c, 60), "(self.notakeover | !(self.compress))",
+                          "a message is deflated by a throw-away context while context takeover is in force: the receiver's window then contains a message the shared context never saw, and the next message that refers back into the window is inflated to different bytes (silently, or as a decode error)",
+                          path_condition=norm.fmt_cnf(cl))
     # ---- C11.shield (T12) --------------------------------------------------------------------------------------
     # the coroutines that suspend between advancing the shared deflate context and writing its output: those that await
     # the compressor (which may hand the payload to the executor), directly or through another method of the writer
